@@ -221,6 +221,17 @@ def rule_partial(rep: Report, rid="C01.partial") -> None:
     for m in f.modules.values():     # class-level / module-level compiled patterns
         if m.name == "gherkin.inout":
             continue
+        for name, val in m.globals.items():
+            if isinstance(val, ast.Call) and dotted(val.func) == "re.compile":
+                pat = val.args[0] if val.args else None
+                ok = isinstance(pat, ast.Constant) and isinstance(pat.value, str)
+                if ok:
+                    try:
+                        _sp.parse(pat.value)
+                    except Exception:
+                        ok = False
+                rep.ob(rid + ".regex", f"module-level pattern {m.name}.{name} is a constant, well-formed regular expression", ok, file=m.rel, line=val.lineno,
+                       function=m.name, expected="constant pattern", found=unparse(pat) if pat is not None else None)
         for c in m.classes.values():
             for name, val in c.class_attrs.items():
                 if isinstance(val, ast.Call) and dotted(val.func) == "re.compile":
